@@ -122,7 +122,7 @@ def run_worker(interp, hashseed, job, timeout=900):
     tree = job["tree"]
     job = dict(job)
     job.setdefault("timeout_s", max(30, timeout - 10))
-    cmd = no_aslr_prefix() + [INTERPRETERS[interp]]
+    cmd = no_aslr_prefix() + [INTERPRETERS[interp]] + list(job.get("py_flags", []))
     cmd.append(os.path.join(VERIF, "sim", "worker.py"))
     t0 = time.time()
     try:
